@@ -9,7 +9,9 @@ use crate::report::{run_sharded, Acc, Ctx, Report};
 use crate::rng::{hash64, Rng};
 use crate::rva::guarded;
 use riscv_analysis::analysis::{AvailableValue, MemoryLocation};
-use riscv_analysis::cfg::{AvailableValueMap, CfgWrapper, RegisterSet};
+use crate::graph::{mem_map, reg_map, regset_bits};
+use crate::shapes;
+use riscv_analysis::cfg::{AvailableValueMap, CfgWrapper, NodeWrapper, RegisterSet};
 use riscv_analysis::parser::{CsrImm, LabelString, Register, Token, With};
 use serde_json::json;
 use std::collections::BTreeMap;
@@ -171,6 +173,65 @@ fn direct_checks(acc: &mut Acc) {
     }
 }
 
+/// Decode an emitted dump with nothing but its own text and compare it, field by field, with the
+/// facts the analysis holds (read through the public getters): what the dump loses shows up here.
+fn decode_and_compare(text: &str, acc: &mut Acc, kind: &str) {
+    let Ok(a) = analyze(text) else { return };
+    let Ok(cfg) = a.cfg.as_ref() else { return };
+    let gv = GraphView::of(cfg);
+    let Ok(Ok(y)) = guarded(|| serde_yaml::to_string(&CfgWrapper::from(cfg))) else { return };
+    let nodes: Vec<NodeWrapper> = match guarded(|| serde_yaml::from_str::<Vec<NodeWrapper>>(&y)) {
+        Ok(Ok(n)) => n,
+        _ => return, // load failures are reported by the round-trip part
+    };
+    acc.count("dumps_decoded", 1);
+    let mut bad = |field: &str, i: usize, detail: String, acc: &mut Acc| {
+        acc.violation(format!("C19|decode|{field}"), format!("{kind}: the dump of node {i} (`{}`) does not carry the analysis's {field}: {detail}", gv.nodes[i].render), json!({"program": text}));
+    };
+    if nodes.len() != gv.nodes.len() {
+        acc.violation("C19|decode|node-count".to_string(), format!("{kind}: {} nodes dumped, the graph has {}", nodes.len(), gv.nodes.len()), json!({"program": text}));
+        return;
+    }
+    let mut shared_nodes = 0u64;
+    for (i, (nw, nv)) in nodes.iter().zip(gv.nodes.iter()).enumerate() {
+        let set = |h: &std::collections::HashSet<usize>| h.iter().copied().collect::<std::collections::BTreeSet<usize>>();
+        if set(&nw.nexts) != nv.nexts {
+            bad("successor edges", i, format!("{:?} vs {:?}", set(&nw.nexts), nv.nexts), acc);
+        }
+        if set(&nw.prevs) != nv.prevs {
+            bad("predecessor edges", i, format!("{:?} vs {:?}", set(&nw.prevs), nv.prevs), acc);
+        }
+        if regset_bits(&nw.live_in) != nv.live_in || regset_bits(&nw.live_out) != nv.live_out {
+            bad("liveness sets", i, format!("in {:08x}/{:08x} out {:08x}/{:08x}", regset_bits(&nw.live_in), nv.live_in, regset_bits(&nw.live_out), nv.live_out), acc);
+        }
+        if reg_map(&nw.reg_values_in) != nv.reg_in || reg_map(&nw.reg_values_out) != nv.reg_out {
+            bad("register value facts", i, format!("{:?} vs {:?}", reg_map(&nw.reg_values_out), nv.reg_out), acc);
+        }
+        if mem_map(&nw.memory_values_in) != nv.mem_in || mem_map(&nw.memory_values_out) != nv.mem_out {
+            bad("memory value facts", i, format!("{:?} vs {:?}", mem_map(&nw.memory_values_out), nv.mem_out), acc);
+        }
+        let labels: std::collections::BTreeSet<String> = nw.labels.iter().cloned().collect();
+        if labels != nv.labels {
+            bad("labels", i, format!("{labels:?} vs {:?}", nv.labels), acc);
+        }
+        // function annotation: the set of (entry, exit) pairs of the functions the node belongs to
+        let want: std::collections::BTreeSet<(usize, usize)> = nv.funcs.iter().map(|f| (gv.funcs[*f].entry, gv.funcs[*f].exit)).collect();
+        if nw.func_entry.len() != nw.func_exit.len() {
+            bad("function annotation", i, format!("{} entries but {} exits", nw.func_entry.len(), nw.func_exit.len()), acc);
+        } else {
+            let got: std::collections::BTreeSet<(usize, usize)> = nw.func_entry.iter().copied().zip(nw.func_exit.iter().copied()).collect();
+            if got != want {
+                bad("function annotation", i, format!("dump pairs (entry, exit) {got:?}, analysis {want:?}"), acc);
+            }
+        }
+        if want.len() > 1 {
+            shared_nodes += 1;
+        }
+    }
+    acc.count("decoded_nodes", nodes.len() as u64);
+    acc.count("decoded_nodes_in_several_functions", shared_nodes);
+}
+
 fn dump_of(text: &str) -> Result<(String, Vec<String>), String> {
     let a = analyze(text).map_err(|p| format!("panic {}", p.msg))?;
     let cfg = a.cfg.as_ref().map_err(|e| e.title.clone())?;
@@ -197,7 +258,8 @@ pub fn run(ctx: &Ctx) -> i32 {
         ctx,
         "(i) every AvailableValue variant x boundary payloads, every MemoryLocation variant x negative/zero/positive offsets, register sets and register maps: dump (serde_yaml, the --yaml format), load, compare; \
          pairwise-distinct values must have pairwise-distinct dumps. (ii) whole graphs of generated programs and CSR-heavy programs: CfgWrapper dump -> load -> dump must be identical, and one-instruction mutants whose \
-         fact snapshots (taken through the public getters) differ must have different dumps; the same through `rva lint --yaml`. distinct_nontrivial = distinct values / locations / program dumps checked",
+         fact snapshots (taken through the public getters) differ must have different dumps; the same through `rva lint --yaml`. (iii) decoder: every dump (generated programs, shared-tail families, trap handlers, \
+         call-graph shapes with overlapping functions) is loaded as plain node records and compared field by field with the analysis (edges, liveness, register and memory facts, labels, and per node the set of (entry, exit) pairs of its functions). distinct_nontrivial = distinct values / locations / program dumps checked",
     );
     rep.assume("lists that represent sets (func_entry / func_exit) are compared as sets");
     let per_shard = ctx.tier.pick(40, 400);
@@ -243,6 +305,18 @@ pub fn run(ctx: &Ctx) -> i32 {
                         Err(p) => acc.violation("C19|panic|CfgWrapper|load".to_string(), format!("loading an emitted dump panics: {}", p.msg), json!({"program": text})),
                     }
                 }
+            }
+            // ---- decode the dump and compare with the analysis, field by field
+            decode_and_compare(&text, &mut acc, "generated");
+            let mut family: Vec<shapes::Shape> = vec![shapes::shared_tail_family(&mut rng), shapes::trap_handler_family(&mut rng)];
+            if k % 4 == 0 {
+                family.extend(shapes::call_graph_shapes(&mut rng));
+            }
+            for s in family {
+                acc.evaluations += 1;
+                let t = print(&s.prog, &Style::plain(), &mut Rng::new(1)).text;
+                acc.nontrivial.insert(hash64(&t));
+                decode_and_compare(&t, &mut acc, s.name);
             }
             // ---- mutants: different facts => different dumps
             for (name, a, b) in mutant_pairs(&mut rng) {
@@ -290,6 +364,8 @@ pub fn run(ctx: &Ctx) -> i32 {
     rep.require("locations_round_tripped", 20);
     rep.require("graphs_round_tripped", 50);
     rep.require("mutant_pairs_compared", 100);
+    rep.require("dumps_decoded", 100);
+    rep.require("decoded_nodes_in_several_functions", 20);
     rep.acc.sample(json!({"value": "ValueInCsr(5)", "expected": "a dump different from Constant(5)"}));
     rep.finish()
 }
